@@ -298,7 +298,11 @@ class BufferCursor(Cursor):
             return []
 
         result = []
+        p = self.pos
         while x := self.matchre(r):
+            if self.pos == p:
+                break  # NOTE: a match that takes no input (a lookahead with a group) would repeat for ever
+            p = self.pos
             result.append(x)
         return result
 
@@ -563,7 +567,11 @@ class Buffer(Text):
             return []
 
         def takewhile_repeat_regex():
+            p = self.pos
             while x := self.matchre(r):
+                if self.pos == p:
+                    break  # NOTE: a match that takes no input (a lookahead with a group) would repeat for ever
+                p = self.pos
                 yield x
 
         return list(takewhile_repeat_regex())
